@@ -285,7 +285,31 @@ End Zlib.
 (* ================================================================== redirect / artifact URLs *)
 
 Lemma delivers_b_iff loc url params : delivers_b loc url params = true <-> delivers loc url params.
-Proof. unfold delivers_b, delivers. rewrite andb_true_iff, attrs_eqb_eq, String.eqb_eq. reflexivity. Qed.
+Proof. unfold delivers_b, delivers. rewrite !andb_true_iff, attrs_eqb_eq, !String.eqb_eq. tauto. Qed.
+
+(* redir_spec_b is written with shared sub-terms; this is what it says *)
+Lemma redir_spec_b_unfold x url received :
+  redir_spec_b x url received =
+  (negb (redir_defined x) ||
+  match url with
+  | None => false
+  | Some u =>
+      if saml_typ (r_typ x) then
+        let cand := match nth_error (parse_qsl (url_query u)) (List.length (parse_qsl (url_query (r_loc x)))) with
+                    | Some kv => snd kv
+                    | None => ""
+                    end in
+        (delivers_b (r_loc x) u (nonblank [(r_typ x, cand); ("RelayState", r_rs x)])
+         || delivers_b (r_loc x) u (nonblank [(r_typ x, ""); ("RelayState", r_rs x)]))
+        && ures_eqb received (UOk (r_msg x))
+      else delivers_b (r_loc x) u (nonblank [(r_typ x, r_msg x); ("RelayState", r_rs x)])
+  end).
+Proof.
+  unfold redir_spec_b, delivers_b. destruct url as [u|]; [|reflexivity].
+  destruct (saml_typ (r_typ x)); [|reflexivity]. cbv zeta.
+  match goal with |- context [if ?a then true else ?b] => change (if a then true else b) with (a || b) end.
+  reflexivity.
+Qed.
 
 Lemma has_cons c d s : has c (String d s) = Ascii.eqb c d || has c s.
 Proof. reflexivity. Qed.
@@ -293,76 +317,163 @@ Proof. reflexivity. Qed.
 Lemma clean_app a b : url_clean (a ++ b) = url_clean a ++ url_clean b.
 Proof. apply remove_chars_app. Qed.
 
-(* destination without query and fragment, glued with '?' *)
-Lemma glue_qm loc s :
-  has c_qm loc = false -> has c_hash loc = false -> all_chars qs_alphabet s = true ->
-  url_query (loc ++ "?" ++ s) = s /\ url_query loc = "" /\ url_base (loc ++ "?" ++ s) = url_base loc.
+Lemma before_after sep s : has sep s = true -> s = before sep s ++ String sep (after sep s).
 Proof.
-  intros Hq Hh Hs. unfold url_query, url_base. cbn [append]. rewrite clean_app.
-  set (L := url_clean loc).
-  assert (HLq : has c_qm L = false) by (apply has_remove_chars; exact Hq).
-  assert (HLh : has c_hash L = false) by (apply has_remove_chars; exact Hh).
-  assert (Hc : url_clean (String "?" s) = String "?" (url_clean s)) by reflexivity.
-  rewrite Hc, (qs_clean s Hs).
-  assert (Hnh : has c_hash (L ++ String "?" s) = false).
-  { rewrite has_app, HLh, has_cons. rewrite (qs_no c_hash s Hs) by reflexivity. reflexivity. }
-  rewrite (before_nosep c_hash _ Hnh), (before_nosep c_hash _ HLh).
-  rewrite (after_app_nosep c_qm _ _ HLq), (after_nosep c_qm _ HLq).
-  rewrite (before_app_nosep c_qm _ _ HLq), (before_nosep c_qm _ HLq).
-  cbn [after before]. change (Ascii.eqb "?" c_qm) with true. cbn iota.
-  rewrite sapp_nil_r. auto.
+  induction s as [|c r IH]; [discriminate|]. rewrite has_cons. cbn [before after].
+  rewrite Ascii.eqb_sym. destruct (Ascii.eqb c sep) eqn:E.
+  - apply Ascii.eqb_eq in E. subst c. reflexivity.
+  - cbn [orb append]. intros H. rewrite <- (IH H). reflexivity.
 Qed.
 
-(* destination with a non-empty query (and no fragment), glued with '&' *)
-Lemma glue_amp loc s :
-  has c_hash loc = false -> url_query loc <> "" -> all_chars qs_alphabet s = true ->
-  url_query (loc ++ "&" ++ s) = url_query loc ++ String c_and s /\ url_base (loc ++ "&" ++ s) = url_base loc.
+Lemma has_before sep s : has sep (before sep s) = false.
 Proof.
-  intros Hh Hne Hs. unfold url_query, url_base in *. cbn [append]. rewrite clean_app.
-  set (L := url_clean loc) in *.
-  assert (HLh : has c_hash L = false) by (apply has_remove_chars; exact Hh).
-  assert (Hc : url_clean (String "&" s) = String "&" (url_clean s)) by reflexivity.
-  rewrite Hc, (qs_clean s Hs).
-  assert (Hnh : has c_hash (L ++ String "&" s) = false).
-  { rewrite has_app, HLh, has_cons. rewrite (qs_no c_hash s Hs) by reflexivity. reflexivity. }
-  rewrite (before_nosep c_hash _ Hnh). rewrite (before_nosep c_hash _ HLh) in *.
-  assert (HLq : has c_qm L = true) by (apply after_nonempty_has; exact Hne).
-  rewrite (after_app_sep c_qm _ _ HLq), (before_app_sep c_qm _ _ HLq). auto.
+  induction s as [|c r IH]; [reflexivity|]. cbn [before].
+  destruct (Ascii.eqb c sep) eqn:E; [reflexivity|].
+  rewrite has_cons, IH, Ascii.eqb_sym, E. reflexivity.
 Qed.
 
-Lemma delivers_glue loc args :
-  loc_ok loc = true -> delivers loc (loc ++ glue_char loc ++ urlencode args) (nonblank args).
+Lemma last_is_split c s : last_is c s = true -> exists d, s = d ++ String c "".
 Proof.
-  unfold loc_ok. intros H. apply andb_true_iff in H as [Hh H]. apply negb_true_iff in Hh.
-  pose proof (urlencode_alphabet args) as Hs. unfold delivers, glue_char.
-  destruct (is_empty (url_query loc)) eqn:Ee.
-  - cbn [negb] in H. rewrite orb_false_r in H. apply negb_true_iff in H.
-    destruct (glue_qm loc (urlencode args) H Hh Hs) as [H1 [H2 H3]].
-    rewrite H1, H2, H3, parse_qsl_urlencode. split; reflexivity.
-  - assert (Hne : url_query loc <> "") by (intros E; rewrite E in Ee; discriminate).
-    destruct (glue_amp loc (urlencode args) Hh Hne Hs) as [H1 H2].
-    rewrite H1, H2, parse_qsl_app, parse_qsl_urlencode. split; reflexivity.
+  induction s as [|a r IH]; [discriminate|]. destruct r as [|b r'].
+  - cbn [last_is]. intros H. apply Ascii.eqb_eq in H. subst a. exists "". reflexivity.
+  - intros H. change (last_is c (String b r') = true) in H. destruct (IH H) as [d Hd].
+    exists (String a d). cbn [append]. rewrite <- Hd. reflexivity.
+Qed.
+
+Lemma last_is_app c d : last_is c (d ++ String c "") = true.
+Proof.
+  induction d as [|a r IH]; [apply Ascii.eqb_refl|]. cbn [append].
+  destruct (r ++ String c "") eqn:E; [destruct r; discriminate|]. exact IH.
+Qed.
+
+(* the last character of s survives in what follows the first separator, unless nothing follows it *)
+Lemma last_is_after sep c s :
+  has sep s = true -> last_is c s = true -> after sep s = "" \/ last_is c (after sep s) = true.
+Proof.
+  induction s as [|a r IH]; [discriminate|]. rewrite has_cons. cbn [after].
+  rewrite Ascii.eqb_sym. destruct (Ascii.eqb a sep) eqn:E.
+  - intros _ Hl. destruct r as [|b r']; [left; reflexivity|right; exact Hl].
+  - cbn [orb]. intros Hh Hl. destruct r as [|b r']; [discriminate|]. apply IH; [exact Hh|exact Hl].
+Qed.
+
+(* location.partition("#") *)
+Lemma hash_split loc : loc = before c_hash loc ++ hash_tail loc.
+Proof.
+  unfold hash_tail. destruct (has c_hash loc) eqn:E.
+  - apply before_after; exact E.
+  - rewrite sapp_nil_r. symmetry. apply before_nosep; exact E.
+Qed.
+
+Definition tail_shape (t : string) : Prop := t = "" \/ exists f, t = String c_hash f.
+
+Lemma hash_tail_shape loc : tail_shape (url_clean (hash_tail loc)).
+Proof. unfold hash_tail. destruct (has c_hash loc); [right; eexists; reflexivity|left; reflexivity]. Qed.
+
+Lemma before_hash_app b t : has c_hash b = false -> tail_shape t -> before c_hash (b ++ t) = b.
+Proof.
+  intros Hb [->|[f ->]].
+  - rewrite sapp_nil_r. apply before_nosep; exact Hb.
+  - rewrite (before_app_nosep c_hash _ _ Hb). cbn [before]. rewrite Ascii.eqb_refl. apply sapp_nil_r.
+Qed.
+
+Lemma glue_of_clean base : url_clean (glue_of base) = glue_of base /\ has c_hash (glue_of base) = false.
+Proof.
+  unfold glue_of. destruct (negb (has c_qm base)); [split; reflexivity|]. cbv zeta.
+  destruct (is_empty (after c_qm base) || last_is c_and (after c_qm base)); split; reflexivity.
+Qed.
+
+(* pack.add_query puts the parameters into the query component: behind the destination's own
+   parameters, in front of its fragment, and leaves everything else of the URL alone *)
+Lemma add_query_delivers loc s :
+  all_chars qs_alphabet s = true ->
+  parse_qsl (url_query (add_query loc s)) = (parse_qsl (url_query loc) ++ parse_qsl s)%list
+  /\ url_base (add_query loc s) = url_base loc
+  /\ url_fragment (add_query loc s) = url_fragment loc.
+Proof.
+  intros Hs. unfold add_query.
+  pose proof (hash_split loc) as Hloc. pose proof (has_before c_hash loc) as Hbh.
+  pose proof (hash_tail_shape loc) as HT.
+  remember (before c_hash loc) as base eqn:Eb. remember (hash_tail loc) as tl eqn:Et. clear Eb Et. subst loc.
+  destruct (glue_of_clean base) as [Hgc Hgh].
+  unfold url_query, url_base, url_fragment. rewrite !clean_app, Hgc, (qs_clean s Hs).
+  set (B := url_clean base) in *. set (T := url_clean tl) in *. set (G := glue_of base) in *.
+  assert (HBh : has c_hash B = false) by (apply has_remove_chars; exact Hbh).
+  assert (Hh3 : has c_hash (B ++ G ++ s) = false).
+  { rewrite !has_app, HBh, Hgh. apply (qs_no c_hash s Hs). reflexivity. }
+  replace (B ++ G ++ s ++ T) with ((B ++ G ++ s) ++ T) by (rewrite !sapp_assoc; reflexivity).
+  rewrite (before_hash_app _ _ Hh3 HT), (before_hash_app _ _ HBh HT).
+  rewrite (after_app_nosep c_hash _ _ Hh3), (after_app_nosep c_hash _ _ HBh).
+  split; [|split; [|reflexivity]].
+  - (* query *)
+    subst G. unfold glue_of. destruct (has c_qm base) eqn:Hq; cbn [negb].
+    + pose proof (before_after c_qm base Hq) as Hbase. pose proof (has_before c_qm base) as HP.
+      set (P := before c_qm base) in *. set (R := after c_qm base) in *.
+      assert (HB : B = url_clean P ++ String c_qm (url_clean R)).
+      { subst B. rewrite Hbase at 1. rewrite clean_app. reflexivity. }
+      assert (HPc : has c_qm (url_clean P) = false) by (apply has_remove_chars; exact HP).
+      assert (HBq : has c_qm B = true).
+      { rewrite HB, has_app, has_cons, Ascii.eqb_refl. apply orb_true_r. }
+      assert (HQ : after c_qm B = url_clean R).
+      { rewrite HB, (after_app_nosep c_qm _ _ HPc). cbn [after]. rewrite Ascii.eqb_refl. reflexivity. }
+      rewrite (after_app_sep c_qm _ _ HBq), HQ.
+      cbv zeta. fold R. destruct (is_empty R) eqn:L1; cbn [orb].
+      * apply is_empty_true in L1. rewrite L1. reflexivity.
+      * destruct (last_is c_and R) eqn:L2.
+        -- destruct (last_is_split _ _ L2) as [r0 Hr0]. rewrite Hr0, clean_app.
+           change (url_clean (String c_and "")) with (String c_and "").
+           cbn [append]. rewrite !sapp_assoc. cbn [append].
+           rewrite (parse_qsl_app (url_clean r0) s), (parse_qsl_app (url_clean r0) "").
+           cbn [parse_qsl split_on flat_map parse_field cut app]. rewrite app_nil_r. reflexivity.
+        -- apply parse_qsl_app.
+    + assert (HBq : has c_qm B = false) by (apply has_remove_chars; exact Hq).
+      rewrite (after_app_nosep c_qm _ _ HBq), (after_nosep c_qm _ HBq).
+      cbn [append after]. rewrite Ascii.eqb_refl. reflexivity.
+  - (* base *)
+    subst G. unfold glue_of. destruct (has c_qm base) eqn:Hq; cbn [negb]; cbv zeta.
+    + pose proof (before_after c_qm base Hq) as Hbase. pose proof (has_before c_qm base) as HP.
+      assert (HBq : has c_qm B = true).
+      { subst B. rewrite Hbase, clean_app, has_app. apply orb_true_iff. right.
+        change (url_clean (String c_qm (after c_qm base))) with (String c_qm (url_clean (after c_qm base))).
+        rewrite has_cons, Ascii.eqb_refl. reflexivity. }
+      apply (before_app_sep c_qm _ _ HBq).
+    + assert (HBq : has c_qm B = false) by (apply has_remove_chars; exact Hq).
+      rewrite (before_app_nosep c_qm _ _ HBq), (before_nosep c_qm _ HBq).
+      cbn [append before]. rewrite Ascii.eqb_refl. apply sapp_nil_r.
+Qed.
+
+Lemma delivers_add_query loc args :
+  delivers loc (add_query loc (urlencode args)) (nonblank args).
+Proof.
+  destruct (add_query_delivers loc (urlencode args) (urlencode_alphabet args)) as [H1 [H2 H3]].
+  unfold delivers. rewrite H1, parse_qsl_urlencode. auto.
 Qed.
 
 Lemma nonblank_relay kv rs : nonblank (kv :: relay_arg rs) = nonblank [kv; ("RelayState", rs)].
 Proof. unfold relay_arg. destruct rs; reflexivity. Qed.
 
 Lemma arturl_holds x :
-  dest_plain (u_dest x) = true -> arturl_spec x (use_http_artifact (u_art x) (u_dest x) (u_rs x)).
+  arturl_spec x (use_http_artifact (u_art x) (u_dest x) (u_rs x)).
 Proof.
-  unfold dest_plain, arturl_spec, use_http_artifact, delivers. intros H.
-  apply andb_true_iff in H as [Hh Hq]. apply negb_true_iff in Hh. apply negb_true_iff in Hq.
-  pose proof (urlencode_alphabet (("SAMLart", u_art x) :: relay_arg (u_rs x))) as Hs.
-  destruct (glue_qm (u_dest x) _ Hq Hh Hs) as [H1 [H2 H3]].
-  rewrite H1, H2, H3, parse_qsl_urlencode, nonblank_relay. split; reflexivity.
+  unfold arturl_spec, use_http_artifact. rewrite <- nonblank_relay.
+  apply delivers_add_query.
+Qed.
+
+Lemma uriurl_holds x :
+  uriurl_spec x (use_http_uri (i_id x) (i_dest x) (i_rs x)).
+Proof.
+  unfold uriurl_spec, use_http_uri. rewrite <- nonblank_relay.
+  apply delivers_add_query.
 Qed.
 
 Lemma arturl_spec_b_iff x url : arturl_spec_b x url = true <-> arturl_spec x url.
 Proof. apply delivers_b_iff. Qed.
 
+Lemma uriurl_spec_b_iff x url : uriurl_spec_b x url = true <-> uriurl_spec x url.
+Proof. apply delivers_b_iff. Qed.
+
 Lemma redir_spec_b_iff x url received : redir_spec_b x url received = true <-> redir_spec x url received.
 Proof.
-  unfold redir_spec_b, redir_spec. destruct (redir_defined x); cbn [negb orb].
+  rewrite redir_spec_b_unfold. unfold redir_spec. destruct (redir_defined x); cbn [negb orb].
   2:{ split; [intros _ H; discriminate|reflexivity]. }
   split.
   - intros H _. destruct url as [u|]; [|discriminate]. destruct (saml_typ (r_typ x)).
@@ -392,45 +503,85 @@ Section Zlib2.
   Hypothesis inflate_deflate : forall m, inflate (deflate m) = Some m.
 
   Lemma redir_holds x :
-    loc_ok (r_loc x) = true ->
     redir_spec x (http_redirect_message deflate (r_msg x) (r_loc x) (r_rs x) (r_typ x))
                  (redirect_received deflate inflate soap_parse (r_msg x)).
   Proof.
-    intros Hok Hdef. unfold http_redirect_message, redirect_args.
+    intros Hdef. unfold http_redirect_message, redirect_args.
     change (is_saml_typ (r_typ x)) with (saml_typ (r_typ x)). unfold redir_defined in Hdef.
     destruct (saml_typ (r_typ x)) eqn:Et.
     - eexists _, (deflate_and_base64_encode deflate (r_msg x)). split; [reflexivity|].
-      split; [rewrite <- nonblank_relay; apply delivers_glue; exact Hok|].
+      split; [rewrite <- nonblank_relay; apply delivers_add_query|].
       apply redirect_roundtrip. exact inflate_deflate.
     - cbn [orb] in Hdef. rewrite Hdef.
       eexists _, (r_msg x). split; [reflexivity|].
-      split; [rewrite <- nonblank_relay; apply delivers_glue; exact Hok|reflexivity].
+      split; [rewrite <- nonblank_relay; apply delivers_add_query|reflexivity].
   Qed.
 
-  (* class 2 witnesses: the parameters end up in the fragment / behind a second '?' *)
-  Lemma redir_fragment_refuted : exists x,
-    ~ redir_spec x (http_redirect_message deflate (r_msg x) (r_loc x) (r_rs x) (r_typ x))
+  (* class 5 witness against the code between fc5e66e9 and d9426b2c: a destination whose query ends
+     in '?' swallowed the first parameter *)
+  Definition redir_qm_tail_witness : redir_in :=
+    {| r_msg := "AAQAAMFbLinlXaCM"; r_loc := "https://idp.example.org/ars?a=1?"; r_rs := "state"; r_typ := "SAMLart" |}.
+
+  Lemma redir_qm_tail_v1_refuted : exists x,
+    ~ redir_spec x (http_redirect_message_v1 deflate (r_msg x) (r_loc x) (r_rs x) (r_typ x))
                    (redirect_received deflate inflate soap_parse (r_msg x)).
   Proof.
-    exists {| r_msg := "AAQAAMFbLinlXaCM"; r_loc := "https://idp.example.org/ars#top"; r_rs := "state"; r_typ := "SAMLart" |}.
-    intros H. apply redir_spec_b_iff in H. vm_compute in H. discriminate.
+    exists redir_qm_tail_witness. intros H. apply redir_spec_b_iff in H. vm_compute in H. discriminate.
   Qed.
 
-  Lemma redir_bare_qm_refuted : exists x,
-    ~ redir_spec x (http_redirect_message deflate (r_msg x) (r_loc x) (r_rs x) (r_typ x))
+  (* class 2 witnesses against the code before fc5e66e9: the parameters ended up in the fragment /
+     behind a second '?' *)
+  Definition redir_fragment_witness : redir_in :=
+    {| r_msg := "AAQAAMFbLinlXaCM"; r_loc := "https://idp.example.org/ars#top"; r_rs := "state"; r_typ := "SAMLart" |}.
+  Definition redir_bare_qm_witness : redir_in :=
+    {| r_msg := "AAQAAMFbLinlXaCM"; r_loc := "https://idp.example.org/ars?"; r_rs := ""; r_typ := "SAMLart" |}.
+
+  Lemma redir_fragment_v0_refuted : exists x,
+    ~ redir_spec x (http_redirect_message_v0 deflate (r_msg x) (r_loc x) (r_rs x) (r_typ x))
                    (redirect_received deflate inflate soap_parse (r_msg x)).
   Proof.
-    exists {| r_msg := "AAQAAMFbLinlXaCM"; r_loc := "https://idp.example.org/ars?"; r_rs := ""; r_typ := "SAMLart" |}.
-    intros H. apply redir_spec_b_iff in H. vm_compute in H. discriminate.
+    exists redir_fragment_witness. intros H. apply redir_spec_b_iff in H. vm_compute in H. discriminate.
   Qed.
+
+  Lemma redir_bare_qm_v0_refuted : exists x,
+    ~ redir_spec x (http_redirect_message_v0 deflate (r_msg x) (r_loc x) (r_rs x) (r_typ x))
+                   (redirect_received deflate inflate soap_parse (r_msg x)).
+  Proof.
+    exists redir_bare_qm_witness. intros H. apply redir_spec_b_iff in H. vm_compute in H. discriminate.
+  Qed.
+
+  (* the same inputs through the code as it is now *)
+  Lemma redir_witnesses_now :
+    http_redirect_message deflate "AAQAAMFbLinlXaCM" "https://idp.example.org/ars?a=1?" "state" "SAMLart"
+       = Some "https://idp.example.org/ars?a=1?&SAMLart=AAQAAMFbLinlXaCM&RelayState=state"
+    /\ http_redirect_message deflate "AAQAAMFbLinlXaCM" "https://idp.example.org/ars#top" "state" "SAMLart"
+       = Some "https://idp.example.org/ars?SAMLart=AAQAAMFbLinlXaCM&RelayState=state#top"
+    /\ http_redirect_message deflate "AAQAAMFbLinlXaCM" "https://idp.example.org/ars?" "" "SAMLart"
+       = Some "https://idp.example.org/ars?SAMLart=AAQAAMFbLinlXaCM".
+  Proof. vm_compute. auto. Qed.
 End Zlib2.
 
-(* class 3 witness: an existing query string swallows the artifact *)
-Lemma arturl_refuted : exists x, ~ arturl_spec x (use_http_artifact (u_art x) (u_dest x) (u_rs x)).
+(* class 5 witness for the artifact URL, against the code between fc5e66e9 and d9426b2c *)
+Lemma arturl_qm_tail_v1_refuted : exists x, ~ arturl_spec x (use_http_artifact_v1 (u_art x) (u_dest x) (u_rs x)).
 Proof.
-  exists {| u_art := "AAQAAMFbLinlXaCM"; u_dest := "https://sp.example.org/acs?tenant=1"; u_rs := "" |}.
+  exists {| u_art := "AAQAAMFbLinlXaCM"; u_dest := "https://sp.example.org/acs??"; u_rs := "" |}.
   intros H. apply arturl_spec_b_iff in H. vm_compute in H. discriminate.
 Qed.
+
+(* class 3 witness against the code before fc5e66e9: an existing query string swallowed the artifact *)
+Definition arturl_witness : arturl_in :=
+  {| u_art := "AAQAAMFbLinlXaCM"; u_dest := "https://sp.example.org/acs?tenant=1"; u_rs := "" |}.
+
+Lemma arturl_v0_refuted : exists x, ~ arturl_spec x (use_http_artifact_v0 (u_art x) (u_dest x) (u_rs x)).
+Proof.
+  exists arturl_witness. intros H. apply arturl_spec_b_iff in H. vm_compute in H. discriminate.
+Qed.
+
+Example arturl_witness_now :
+  use_http_artifact "AAQAAMFbLinlXaCM" "https://sp.example.org/acs??" "" = "https://sp.example.org/acs??&SAMLart=AAQAAMFbLinlXaCM"
+  /\ use_http_artifact (u_art arturl_witness) (u_dest arturl_witness) (u_rs arturl_witness)
+     = "https://sp.example.org/acs?tenant=1&SAMLart=AAQAAMFbLinlXaCM".
+Proof. vm_compute. auto. Qed.
 
 (* ================================================================== SOAP *)
 
@@ -487,35 +638,6 @@ Proof.
   rewrite <- (IH t H2). reflexivity.
 Qed.
 
-Lemma before_after sep s : has sep s = true -> s = before sep s ++ String sep (after sep s).
-Proof.
-  induction s as [|c r IH]; [discriminate|]. rewrite has_cons. cbn [before after].
-  rewrite Ascii.eqb_sym. destruct (Ascii.eqb c sep) eqn:E.
-  - apply Ascii.eqb_eq in E. subst c. reflexivity.
-  - cbn [orb append]. intros H. rewrite <- (IH H). reflexivity.
-Qed.
-
-Lemma has_before sep s : has sep (before sep s) = false.
-Proof.
-  induction s as [|c r IH]; [reflexivity|]. cbn [before].
-  destruct (Ascii.eqb c sep) eqn:E; [reflexivity|].
-  rewrite has_cons, IH, Ascii.eqb_sym, E. reflexivity.
-Qed.
-
-Lemma last_is_split c s : last_is c s = true -> exists d, s = d ++ String c "".
-Proof.
-  induction s as [|a r IH]; [discriminate|]. destruct r as [|b r'].
-  - cbn [last_is]. intros H. apply Ascii.eqb_eq in H. subst a. exists "". reflexivity.
-  - intros H. change (last_is c (String b r') = true) in H. destruct (IH H) as [d Hd].
-    exists (String a d). cbn [append]. rewrite <- Hd. reflexivity.
-Qed.
-
-Lemma last_is_app c d : last_is c (d ++ String c "") = true.
-Proof.
-  induction d as [|a r IH]; [apply Ascii.eqb_refl|]. cbn [append].
-  destruct (r ++ String c "") eqn:E; [destruct r; discriminate|]. exact IH.
-Qed.
-
 Lemma find_xml_prefix X : find "?>" ("<?xml" ++ X) = option_map (fun n => 5 + n) (find "?>" X).
 Proof. cbn [append find starts]. cbn. destruct (find "?>" X); reflexivity. Qed.
 
@@ -569,25 +691,35 @@ Proof.
     rewrite last_is_app. cbn [andb]. rewrite (lstrip_crlf_app nl b Hn Hb). reflexivity.
 Qed.
 
-(* the envelope carries the body text verbatim, one-line and multi-line alike *)
-Lemma soap_holds t : body_ok t = true -> soap_spec t (make_soap t).
+(* the envelope carries the body text verbatim, one-line and multi-line alike, whatever it contains *)
+Lemma soap_holds t : soap_spec t (make_soap t).
 Proof.
-  unfold body_ok, soap_spec. intros Hok b Hb. rewrite Hb in Hok. apply negb_true_iff in Hok.
-  unfold make_soap, soap_thingy. rewrite (strip_decl_body t b Hb), (replace_absent _ _ _ Hok).
+  unfold soap_spec. intros b Hb.
+  unfold make_soap, soap_thingy. rewrite (strip_decl_body t b Hb).
   apply surgery_precursor.
 Qed.
 
-(* class 4 witness: declaration text inside a CDATA section is deleted *)
-Lemma soap_refuted : exists t, ~ soap_spec t (make_soap t).
+(* the code before 9f16767d agreed with this outside class 4 *)
+Lemma soap_v0_holds t : body_ok t = true -> soap_spec t (make_soap_v0 t).
 Proof.
-  exists "<a><![CDATA[<?xml version=""1.0"" encoding=""UTF-8""?>]]></a>".
-  intros H. apply soap_spec_b_iff in H. vm_compute in H. discriminate.
+  unfold body_ok, soap_spec. intros Hok b Hb. rewrite Hb in Hok. apply negb_true_iff in Hok.
+  unfold make_soap_v0, soap_thingy_v0. rewrite (strip_decl_body t b Hb), (replace_absent _ _ _ Hok).
+  apply surgery_precursor.
+Qed.
+
+(* class 4 witness against the code before 9f16767d: declaration text inside a CDATA section was deleted *)
+Definition soap_witness : string := "<a><![CDATA[<?xml version=""1.0"" encoding=""UTF-8""?>]]></a>".
+
+Lemma soap_v0_refuted : exists t, ~ soap_spec t (make_soap_v0 t).
+Proof.
+  exists soap_witness. intros H. apply soap_spec_b_iff in H. vm_compute in H. discriminate.
 Qed.
 
 (* non-vacuity *)
 Example soap_example_oneline :
   make_soap "<?xml version='1.0' encoding='UTF-8'?><a>x</a>" = Some (ENV_PRE ++ "<a>x</a>" ++ ENV_POST)
-  /\ body_ok "<?xml version='1.0' encoding='UTF-8'?><a>x</a>" = true.
+  /\ body_of "<?xml version='1.0' encoding='UTF-8'?><a>x</a>" = Some "<a>x</a>"
+  /\ make_soap soap_witness = Some (ENV_PRE ++ soap_witness ++ ENV_POST).
 Proof. vm_compute. auto. Qed.
 
 (* ================================================================== artifacts *)
@@ -755,9 +887,9 @@ Example post_example :
 Proof. vm_compute. reflexivity. Qed.
 
 Example redir_example :
-  loc_ok "https://idp.example.org/sso?tenant=a%20b" = true /\
-  redir_spec_b {| r_msg := "<a/>"; r_loc := "https://idp.example.org/sso?tenant=a%20b"; r_rs := "x&SAMLRequest=evil#"; r_typ := "SAMLRequest" |}
-    (http_redirect_message toy_deflate "<a/>" "https://idp.example.org/sso?tenant=a%20b" "x&SAMLRequest=evil#" "SAMLRequest")
+  qtail_ok "https://idp.example.org/sso?tenant=a%20b?#frag?" = false /\
+  redir_spec_b {| r_msg := "<a/>"; r_loc := "https://idp.example.org/sso?tenant=a%20b?#frag?"; r_rs := "x&SAMLRequest=evil#"; r_typ := "SAMLRequest" |}
+    (http_redirect_message toy_deflate "<a/>" "https://idp.example.org/sso?tenant=a%20b?#frag?" "x&SAMLRequest=evil#" "SAMLRequest")
     (redirect_received toy_deflate toy_inflate (fun _ => None) "<a/>") = true.
 Proof. vm_compute. auto. Qed.
 
